@@ -195,6 +195,48 @@ class IdentSim(object):
             raise Violation()
         self.m_issue(ev["u"], t, i, rec)
 
+    def op_login(self, ev, i, rec):
+        """The identifier an IdP picks when a user logs in at an SP: the real Server.gather_authn_response_args()
+        (server.py is one of the property's anchors) run against the database under test - with a NameIDPolicy from
+        the request, or without one (IdP-initiated login)."""
+        from saml2_tophat.server import Server
+
+        class _Conf(object):
+            def getattr(self, *a, **kw):
+                return None
+
+        class _Idp(object):
+            pass
+        u, spq = ev["u"], ev["spq"]
+        fmt = FORMATS[ev.get("fmt", "P")]
+        idp = _Idp()
+        idp.config = _Conf()
+        idp.metadata = {spq: {"spsso_descriptor": [{}]}}
+        idp.ident = self.db
+        nip = None
+        if ev.get("nip"):
+            nip = NameIDPolicy(format=fmt, sp_name_qualifier=(spq if ev["nip"] == "with-spq" else None))
+        pol = Policy({"default": {"nameid_format": fmt}})
+        try:
+            args = Server.gather_authn_response_args(idp, spq, nip, u, release_policy=pol, pefim=False,
+                                                     encrypt_cert_advice=None, encrypt_cert_assertion=None)
+        except Exception as e:
+            rec["exc"] = type(e).__name__
+            return
+        t = nid_tuple(args["name_id"])
+        rec["ret"] = t[4]
+        self.count("oracle.login-identifier-judged")
+        if (t[1] or "") != spq:
+            self.viol(i, "login-handed-identifier-of-another-sp", "user=%s sp=%s policy=%s got %r" % (u, spq, ev.get("nip"), t))
+            raise Violation()
+        if t[4] in self.owner:
+            if self.owner[t[4]] != u:
+                self.viol(i, "login-handed-identifier-of-another-user", "user=%s got %r owned by %s" % (u, t, self.owner[t[4]]))
+                raise Violation()
+            self.count("probe.login.reused")
+        else:
+            self.m_issue(u, t, i, rec)
+
     def op_fork(self, ev, i, rec):
         """A pre-forking server: the master process (library loaded, nothing issued from this database yet) forks a
         worker; master and worker each serve their own users from their own in-memory database.  The operating
@@ -846,13 +888,16 @@ def gen_c18(seed, tier):
     evs = []
     mk = 0
     for _ in range(n):
-        k = r.weighted([("persistent", 5), ("transient", 3), ("construct", 2), ("store", 2), ("find_local", 2),
+        k = r.weighted([("persistent", 5), ("transient", 3), ("construct", 2), ("store", 2), ("find_local", 2), ("login", 2),
                         ("find_nameid", 2), ("match", 2), ("mapping", 2), ("manage", 2), ("remove_remote", 4),
                         ("remove_local", 1), ("reopen", 1 if backend == "shelve" else 0), ("codec", 1),
                         ("entropy_repeat", 3 if faulty else 0)])
         u = r.pick(users)
         if k in ("persistent", "transient", "match"):
             evs.append({"k": k, "u": u, "spq": r.pick(spqs), "nq": r.pick(nqs)})
+        elif k == "login":
+            evs.append({"k": k, "u": u, "spq": r.pick([x for x in spqs if x]), "fmt": r.pick(["P", "P", "T"]),
+                        "nip": r.pick([None, None, "with-spq", "no-spq"])})
         elif k == "construct":
             evs.append({"k": k, "u": u, "fmt": r.pick(["T", "P", "E"]), "spq": r.pick(spqs),
                         "via": r.pick(["policy", "nip"]), "nip_spq": r.pick(spqs)})
